@@ -191,25 +191,111 @@ func c11() []*Ob {
 					if fn == nil {
 						continue
 					}
-					ok := false
-					for _, b := range fn.Blocks {
-						for _, in := range b.Instrs {
-							phi, isPhi := in.(*ssa.Phi)
-							if !isPhi || phi.Comment != "caseSensitive" {
-								continue
+					// every value that is handed on as "caseSensitive" (argument of a parameter of that
+					// name, store into a field of that name) is true whenever fieldName == "_exists_"
+					isExistsTest := func(v ssa.Value) bool {
+						bo, isBo := v.(*ssa.BinOp)
+						if !isBo || bo.Op != token.EQL {
+							return false
+						}
+						sx, okx := ConstString(bo.X)
+						sy, oky := ConstString(bo.Y)
+						return (okx && sx == "_exists_") || (oky && sy == "_exists_")
+					}
+					var trueUnder func(v ssa.Value, d int) bool
+					trueUnder = func(v ssa.Value, d int) bool {
+						if d > 8 {
+							return false
+						}
+						if b, isB := ConstBool(v); isB {
+							return b
+						}
+						if isExistsTest(v) {
+							return true
+						}
+						switch x := v.(type) {
+						case *ssa.Phi:
+							for i, e := range x.Edges {
+								infeasible := false
+								for _, f := range FactsOnEdge(x.Block().Preds[i], x.Block()) {
+									if isExistsTest(f.Cond) && !f.Val {
+										infeasible = true
+									}
+								}
+								if !infeasible && !trueUnder(e, d+1) {
+									return false
+								}
 							}
-							for i, e := range phi.Edges {
-								if v, isB := ConstBool(e); isB && v {
-									for _, f := range FactsOnEdge(phi.Block().Preds[i], phi.Block()) {
-										if bo, isBo := f.Cond.(*ssa.BinOp); isBo && bo.Op == token.EQL && f.Val {
-											if s, isS := ConstString(bo.Y); isS && s == "_exists_" {
-												ok = true
+							return len(x.Edges) > 0
+						case *ssa.BinOp:
+							if x.Op == token.OR {
+								return trueUnder(x.X, d+1) || trueUnder(x.Y, d+1)
+							}
+							if x.Op == token.AND {
+								return trueUnder(x.X, d+1) && trueUnder(x.Y, d+1)
+							}
+						case *ssa.UnOp:
+							if x.Op == token.MUL {
+								if al, isAl := x.X.(*ssa.Alloc); isAl {
+									n := 0
+									for _, r := range *al.Referrers() {
+										if st, isSt := r.(*ssa.Store); isSt && st.Addr == ssa.Value(al) {
+											n++
+											if !trueUnder(st.Val, d+1) {
+												return false
 											}
 										}
+									}
+									return n > 0
+								}
+							}
+						}
+						return false
+					}
+					consumers, bad := 0, 0
+					for _, f := range WithClosures(fn) {
+						for _, call := range CallsIn(f, nil) {
+							callee := StaticCallee(call)
+							if callee == nil || !c.P.InRepo(callee) {
+								continue
+							}
+							args := call.Common().Args
+							for i, p := range callee.Params {
+								if p.Name() == "caseSensitive" && i < len(args) {
+									consumers++
+									if !trueUnder(args[i], 0) {
+										bad++
+										c.Violation("sibling:"+name+":exists-case", call.Pos(), "%s passes a case-sensitivity flag to %s that is not forced to true for the _exists_ field: field names are indexed un-lowered, so _exists_:CamelCase would not match when the store is case-insensitive", name, FuncName(callee))
 									}
 								}
 							}
 						}
+						for _, in := range InstrsIn(f, func(in ssa.Instruction) bool {
+							st, isSt := in.(*ssa.Store)
+							if !isSt {
+								return false
+							}
+							fa, isFa := st.Addr.(*ssa.FieldAddr)
+							if !isFa {
+								return false
+							}
+							_, fname, _, okf := FieldOf(fa)
+							return okf && fname == "caseSensitive"
+						}) {
+							consumers++
+							if !trueUnder(in.(*ssa.Store).Val, 0) {
+								bad++
+								c.Violation("sibling:"+name+":exists-case", in.Pos(), "%s stores a case-sensitivity flag that is not forced to true for the _exists_ field: field names are indexed un-lowered, so _exists_:CamelCase would not match when the store is case-insensitive", name)
+							}
+						}
+					}
+					ok := consumers > 0 && bad == 0
+					if consumers == 0 {
+						c.Undecided("sibling:"+name+":exists-case:none", fn.Pos(), "%s hands no case-sensitivity flag on any more", name)
+						continue
+					}
+					if bad > 0 {
+						continue
 					}
 					if ok {
 						c.Site(fn.Pos(), "%s forces case-sensitive matching for _exists_", name)
@@ -249,7 +335,7 @@ func c11() []*Ob {
 					if fn == nil {
 						continue
 					}
-					cov := SwitchCoverage(fn, func(v ssa.Value) bool { return strings.HasSuffix(v.Type().String(), "seq.TokenizerType") })
+					cov := c.P.SwitchCoverageLifted(fn, func(v ssa.Value) bool { return strings.HasSuffix(v.Type().String(), "seq.TokenizerType") })
 					var missing []string
 					for k := range valueTypes {
 						if !cov[k] {
